@@ -16,7 +16,7 @@ ENGINE = "histsim"
 RULE = (
     "case = Chooser-generated history of 3-8 operations over cache locations R1,R2 (roots) and R1,R2,R3 (read-only "
     "lists in random order): submit(task|workflow, rerun?, propagate_rerun?, root, readonly list, debug|simulated-pool "
-    "worker) over a pool of 4 plain tasks, 2 workflows sharing inner identities with them and a workflow that nests one of those workflows, and leave_residue(identity, "
+    "worker) over a pool of 4 plain tasks, 2 workflows sharing inner identities with them a workflow that nests one of those workflows and a workflow with two independent nodes (workflow submissions with max_concurrent unlimited/1/2), and leave_residue(identity, "
     "location): a real process executing that job is SIGKILLed at a Chooser-picked point, leaving an incomplete "
     "directory / stale lock / torn result (in half of the cases the lock and info files are then removed, as in a copied cache).  Reference model: per location the set of identities with a complete "
     "successful result.  Non-trivial = the history contains a cache hit, a rerun or a residue; distinct = distinct "
@@ -30,7 +30,7 @@ ASSUMPTIONS = [
     "identity = (task class, input values) as the model understands the computation, never pydra's checksum",
     "with propagate_rerun=False inner tasks of a rerun workflow follow the ordinary cache rule",
 ]
-PROBES = ["nested_workflow", "rerun_nested", "residue_without_lock", "cache_hit", "readonly_hit", "rerun", "rerun_no_propagate", "residue_in_root", "residue_in_readonly", "cf_submission", "workflow_inner_shared"]
+PROBES = ["limited_concurrency", "nested_workflow", "rerun_nested", "residue_without_lock", "cache_hit", "readonly_hit", "rerun", "rerun_no_propagate", "residue_in_root", "residue_in_readonly", "cf_submission", "workflow_inner_shared"]
 N = {"quick": 300, "thorough": 6000}
 JOBS = 6
 
@@ -57,6 +57,8 @@ TASKS = {
     "wf1": (lambda: workload.Chain2(x=1), [_k_add(1, 1), _k_slow(2, 2)], {"out": 5}),
     "wf2": (lambda: workload.Chain2(x=2), [_k_add(2, 1), _k_slow(3, 2)], {"out": 7}),
     # Nest2(x): inner=Chain2(x) (a nested workflow job with the identity of wf<x>), c=Add(inner.out,3)
+    # Par2(x): a=Add(x,1), b=Add(x+1,1) side by side (identities of add1 and add2), c=Mul(a.out,b.out)
+    "wfp1": (lambda: workload2.Par2(x=1), [_k_add(1, 1), _k_add(2, 1), workload._key("Mul", 2, 3)], {"out": 6}),
     "wfn1": (lambda: workload2.Nest2(x=1), [_k_add(1, 1), _k_slow(2, 2), _k_add(5, 3)], {"out": 8}),
 }
 # workflow structure for the model: own task identities and nested workflows
@@ -64,6 +66,7 @@ WFS = {
     "wf1": ([_k_add(1, 1), _k_slow(2, 2)], []),
     "wf2": ([_k_add(2, 1), _k_slow(3, 2)], []),
     "wfn1": ([_k_add(5, 3)], ["wf1"]),
+    "wfp1": ([_k_add(1, 1), _k_add(2, 1), workload._key("Mul", 2, 3)], []),
 }
 
 
@@ -174,12 +177,16 @@ def run_case(case, ch, workdir):
             kw = {"rerun": rerun, "readonly_caches": [locs[n] for n in ro] or None}
             if rerun and not prop:
                 kw["propagate_rerun"] = False
+            mc = ch.pick([None, None, 1, 2], "max_concurrent") if is_wf else None
+            if mc is not None:
+                kw["max_concurrent"] = mc
+                probe("limited_concurrency")
             status, val, events, extra = hc.submit(ch, workdir, task, locs[root], worker=worker, salt=f"{case['id']}-{op}", **kw)
             steps += extra.get("steps", 0)
             if worker == "cf":
                 probe("cf_submission")
             got = hc.enters(events)
-            desc = f"{name}(root={root},ro={ro},rerun={rerun},prop={prop},{worker})"
+            desc = f"{name}(root={root},ro={ro},rerun={rerun},prop={prop},{worker}{',mc=%d' % mc if mc else ''})"
             history.append(desc + f":{status}")
             hsh.update(repr((desc, status, sorted(got.items()))).encode())
             sig = ("wf" if is_wf else "task") + ("+rerun" if rerun else "") + ("+ro" if ro else "")
@@ -260,6 +267,10 @@ def _complete_keys(loc):
                 out.add(_k_slow(t.x, t.npoints))
             elif nm == "Chain2":
                 out.add(f"wf:wf{t.x}")
+            elif nm == "Par2":
+                out.add(f"wf:wfp{t.x}")
+            elif nm == "Mul":
+                out.add(workload._key("Mul", t.x, t.y))
             elif nm == "Nest2":
                 out.add(f"wf:wfn{t.x}")
         except Exception:
